@@ -190,7 +190,13 @@ def post_order(root):
 
 class Table:
     """children-first list of node descriptions (exact Fractions) + back pointers to the objects."""
-    def __init__(self, root, points=None):
+    def __init__(self, root, points=None, renorm=False):
+        """renorm: learned (float32) parameter vectors sum to one only up to rounding; with renorm the
+        LAST entry of every weight vector / categorical table / CPT row is replaced by one minus the
+        exact sum of the others, and the largest such adjustment is kept in self.max_adjust (the
+        caller must bound it: a real normalisation defect shows up as a large adjustment)."""
+        self.max_adjust = Fraction(0)
+        self.renorm = renorm
         self.objs = post_order(root)
         self.pos = {id(o): i for i, o in enumerate(self.objs)}
         self.points = points if points is not None else {}   # var -> list of float test points
@@ -199,21 +205,22 @@ class Table:
             sc = [int(v) for v in o.scope]
             kids = [self.pos[id(c)] for c in o.children]
             if isinstance(o, Sum):
-                self.nodes.append(dict(kind="sum", scope=sc, kids=kids, ws=[Fraction(float(w)) for w in o.weights]))
+                self.nodes.append(dict(kind="sum", scope=sc, kids=kids, ws=self._fix([Fraction(float(w)) for w in o.weights])))
             elif isinstance(o, Product):
                 self.nodes.append(dict(kind="prod", scope=sc, kids=kids))
             elif isinstance(o, BinaryCLT):
                 probs = getattr(o, "_verif_probs", None)
                 if probs is None:
                     probs = np.exp(np.asarray(o.params, dtype=np.float64))
-                cpt = [[[Fraction(float(probs[i][l][k])) for k in (0, 1)] for l in (0, 1)] for i in range(len(sc))]
+                cpt = [[self._fix([Fraction(float(probs[i][l][k])) for k in (0, 1)]) for l in (0, 1)] for i in range(len(sc))]
                 tree = [int(t) for t in o.tree]
                 self.nodes.append(dict(kind="clt", scope=sc, kids=[], tree=tree, cpt=cpt))
             elif isinstance(o, Bernoulli):
                 p = Fraction(float(o.p))
                 self.nodes.append(dict(kind="tab", scope=sc, kids=[], var=sc[0], tab=[(0, 1 - p), (1, p)]))
             elif isinstance(o, Categorical):
-                tab = [(int(c), Fraction(float(p))) for c, p in zip(o.categories, o.probabilities)]
+                ps = self._fix([Fraction(float(p)) for p in o.probabilities])
+                tab = [(int(c), p) for c, p in zip(o.categories, ps)]
                 self.nodes.append(dict(kind="tab", scope=sc, kids=[], var=sc[0], tab=tab))
             elif isinstance(o, (Gaussian, Uniform, Isotonic)):
                 pts = self.points.get(sc[0], [])
@@ -221,6 +228,13 @@ class Table:
                 self.nodes.append(dict(kind="tab", scope=sc, kids=[], var=sc[0], tab=tab, cont=True))
             else:
                 raise TypeError(f"unsupported node {type(o).__name__}")
+
+    def _fix(self, vec):
+        if not self.renorm or not vec:
+            return vec
+        last = 1 - sum(vec[:-1])
+        self.max_adjust = max(self.max_adjust, abs(last - vec[-1]))
+        return vec[:-1] + [last]
 
     def root_scope(self):
         return self.nodes[-1]["scope"]
